@@ -34,7 +34,7 @@ EPS32 = float(np.finfo(np.float32).eps)
 
 
 def plan(tier, seed):
-    return [{"shard": i, "histories": 2 if tier == "quick" else 25, "stab": 1 if tier == "quick" else 4,
+    return [{"shard": i, "histories": 2 if tier == "quick" else 200, "stab": 1 if tier == "quick" else 24,
              "long_rows": 1000 if tier == "quick" else 5000} for i in range(16)]
 
 
